@@ -1053,6 +1053,9 @@ func (e *c14Env) client(ver [2]int) (*kmipclient.Client, error) {
 		return nil, err
 	}
 	e.clients[ver] = c
+	// warm the connection up with a large response, so that whatever the connection keeps
+	// between exchanges (buffers) has reached its steady state before the case under test
+	c14LaterExchange(c)
 	return c, nil
 }
 
